@@ -380,6 +380,88 @@ Qed.
 Lemma single_read_route_ok : forall r, single_read_route r = [] \/ ends_whole (single_read_route r) = true.
 Proof. destruct r; simpl; auto. Qed.
 
+(* ---------------- pairing at latch time ---------------- *)
+Lemma fetch_local_in : forall f g d, fetch_local f g = Some d -> exists n, In (n, d) f.
+Proof.
+  unfold fetch_local. induction f as [|[n d'] tl IH]; simpl; intros g d H; try discriminate.
+  destruct (beq g n).
+  - inversion H; subst. eauto.
+  - destruct (IH _ _ H) as [n' Hn]. eauto.
+Qed.
+
+Lemma latch_ops_issued : forall (issued : list key) ls f k,
+  (forall n d, In (n, d) f -> In d issued) ->
+  (forall d, In (LatchAcquired d) ls -> In d issued) ->
+  In (Some k) (latch_ops f ls) -> In k issued.
+Proof.
+  intros issued ls. induction ls as [|l tl IH]; simpl; intros f k Hf Ha Hin; [contradiction|].
+  apply in_app_or in Hin. destruct Hin as [Hin|Hin].
+  - destruct l as [g|d|]; simpl in Hin.
+    + destruct (fetch_local f g) as [d|] eqn:E; simpl in Hin; [|contradiction].
+      destruct Hin as [Hin|[]]. inversion Hin; subst. destruct (fetch_local_in _ _ _ E) as [n Hn]. eauto.
+    + destruct Hin as [Hin|[]]. inversion Hin; subst. apply Ha. auto.
+    + destruct Hin as [Hin|[]]. discriminate.
+  - apply (IH (folder_after f l) k); auto.
+    intros n d Hd. destruct l as [g|d'|]; simpl in Hd; eauto.
+    destruct Hd as [Hd|Hd]; eauto. inversion Hd; subst. apply Ha. auto.
+Qed.
+
+Definition only_sets (ops : list (option key)) (m : amsg) : Prop :=
+  forall o, m = SetKey o -> In o ops.
+
+Lemma all_calls_keeper : forall ops ops', incl ops' ops -> all_calls (only_sets ops) (keeper ops').
+Proof.
+  intros ops ops'. induction ops' as [|o tl IH]; intros Hi; simpl.
+  - constructor.
+  - constructor.
+    + intros o' E. inversion E; subst. apply Hi. simpl. auto.
+    + intros _. apply IH. intros x Hx. apply Hi. simpl. auto.
+Qed.
+
+Lemma all_calls_signer : forall ops rds l, all_calls (only_sets ops) (signer rds l).
+Proof.
+  intros ops rds. induction rds as [|r tl IH]; intros l; simpl.
+  - constructor.
+  - constructor; [intros o E; discriminate|]. intros rep. apply IH.
+Qed.
+
+Lemma set_args_only : forall ops (tr : list (event amsg areply)),
+  Forall (fun e => only_sets ops (ev_msg e)) tr -> incl (set_args tr) ops.
+Proof.
+  intros ops tr H. induction H as [|e tl He Htl IH]; simpl; intros x Hx; [contradiction|].
+  destruct (ev_msg e) as [k|] eqn:E.
+  - destruct Hx as [<-|Hx]; auto.
+  - auto.
+Qed.
+
+(* the key keeper as it is (every SetKey argument is a whole document from the key folder or from the
+   host) racing any number of signing call sites: every header pairs the id of an ISSUED key document
+   with the MAC under that document's secret *)
+Theorem latch_pairing : forall (M : Type) (mac : bytes -> bytes -> M) (issued : list key) f ls k0 rs t r sched l input g m,
+  (forall n d, In (n, d) f -> In d issued) ->
+  (forall d, In (LatchAcquired d) ls -> In d issued) ->
+  (forall k, k0 = Some k -> In k issued) ->
+  let ps := keeper (latch_ops f ls) :: map (fun r => signer0 (route_reads r)) rs in
+  nth_error ps t = Some (signer0 (route_reads r)) ->
+  result_of (run (init (w_init k0) ps) sched) t = Some l ->
+  header mac input l = Some (g, m) ->
+  exists k, In k issued /\ guid k = g /\ m = mac (value k) input.
+Proof.
+  intros M mac issued f ls k0 rs t r sched l input g m Hf Ha H0 ps Hp Hr Hh.
+  destruct (route_pairing_if_single route_reads single_read_route_ok M mac k0 ps t r sched l input g m Hp Hr Hh)
+    as (k & Hin & Hg & Hm).
+  exists k. split; [|auto].
+  destruct Hin as [Hin|Hin]; [apply H0; auto|].
+  assert (HF : Forall (all_calls (only_sets (latch_ops f ls))) ps).
+  { subst ps. constructor.
+    - apply all_calls_keeper. apply incl_refl.
+    - apply Forall_forall. intros p Hin'. apply in_map_iff in Hin'. destruct Hin' as (r' & <- & _).
+      apply all_calls_signer. }
+  pose proof (trace_all_calls handle _ (w_init k0) ps sched HF) as Htr.
+  apply (set_args_only _ _ Htr) in Hin.
+  eapply latch_ops_issued; eauto.
+Qed.
+
 (* ---------------- the refutation for the two-read call sites (finding F5) ---------------- *)
 Definition k1 : key := Key [1%N] [11%N].
 Definition k2 : key := Key [2%N] [22%N].
